@@ -18,7 +18,7 @@ distribution = queues.distribution
 
 
 def gen(rng, tier):
-    n = {"quick": 90, "thorough": 900, "search": 400}[tier]
+    n = {"quick": 90, "thorough": 900, "search": 150}[tier]
     cases = []
     for i in range(n):
         k = i % 3
